@@ -21,6 +21,9 @@ func registerIntrinsics(e *Engine) {
 	registerRepoStubs(e)
 	registerHTTP(e)
 	registerFS(e)
+	registerRegexp(e)
+	registerCron(e)
+	registerMisc2(e)
 	allowExecNames["(*errors.errorString).Error"] = true
 	allowExecNames["(*fmt.wrapError).Error"] = true
 	allowExecNames["(*fmt.wrapError).Unwrap"] = true
@@ -355,6 +358,7 @@ func registerHarness(e *Engine) {
 		}
 		return succ
 	}
+	e.Intr["harness.vfRecorded"] = func(c *Call) []*State { return c.Return(Slice{}) }
 	e.Intr["harness.vfNative"] = func(c *Call) []*State { return c.Return(False) }
 	e.Intr["harness.vfSetUnwind"] = func(c *Call) []*State { return c.Return(nil) }
 	e.Intr["harness.vfGhostSet"] = func(c *Call) []*State {
